@@ -254,7 +254,7 @@ SIMPLE_LISTENERS = [
 ]
 
 
-def gen_iter_plan(rng, mode="C08"):
+def gen_iter_plan(rng, mode="C08", tier="quick"):
     real_eop = rng.random() < 0.15
     kinds_w = ["sgp4"] * 4 + ["kepler"] * 3 + ["j2"] * 2 + ["none"] * 1 + ["keplernum"] * 1 + ["cw"] * 1
     pool = []
@@ -320,7 +320,7 @@ def gen_iter_plan(rng, mode="C08"):
         live.append((tid, i))
         return tid
 
-    nops = rng.randint(4, 11)
+    nops = rng.randint(4, 11) if tier != "thorough" else rng.randint(6, 22)  # thorough: longer histories
     cancelled_objs = []
     while len(ops) < nops:
         r = rng.random()
